@@ -129,6 +129,14 @@ both_families! {
 	}
 
 	pub fn valid_full(s: &str) -> bool { Ri::new(s).is_ok() }
+
+	/// `resolved()` on two values parsed IN PLACE from the given slices (which may be views of one buffer).
+	pub fn resolved_in_place(base: &str, reference: &str) -> Result<Option<String>, Failure> {
+		let b = match Ri::new(base) { Ok(b) => b, Err(_) => return Ok(None) };
+		let r = match RiRef::new(reference) { Ok(r) => r, Err(_) => return Ok(None) };
+		let a = guard(|| r.resolved(b)).map_err(|p| Failure::new(format!("panic:{}", p.loc), format!("resolved({:?}, base {:?}) panicked at {}: {}", reference, base, p.loc, p.msg)))?;
+		Ok(Some(String::from_utf8_lossy(a.as_bytes()).to_string()))
+	}
 }
 
 pub fn pair(o: Opt) -> BoxedStrategy<(String, String)> {
@@ -213,6 +221,27 @@ impl Prop for C06 {
 				}
 			}
 		}
+		// base and reference being views of ONE buffer (same start address): the base against its own valid
+		// prefixes taken as references and as bases, and against itself as one object
+		{
+			let valid = |p: &str| match case.fam { Fam::Uri => iref::Uri::new(p).is_ok(), Fam::Iri => iref::Iri::new(p).is_ok() };
+			let whole = case.base.as_str();
+			let mut views: Vec<&str> = gen::valid_prefix_cuts(whole, 3, valid).into_iter().map(|k| &whole[..k]).collect();
+			views.push(whole);
+			for v in views {
+				for (bs, rf) in [(whole, v), (v, whole)] {
+					if let Some(got) = by_fam!(case.fam, resolved_in_place(bs, rf))? {
+						let mut scx = Ctx::default();
+						judge_text(&mut scx, "resolved() (base and reference are views of one buffer)", bs, rf, &got, valid(&got)).map_err(|f| Failure::new(format!("aliased:{}", f.sig), f.msg))?;
+						for t in scx.tolerated {
+							cx.tolerated.push(t);
+						}
+						cx.obs(1);
+					}
+				}
+				cx.class("aliased-views");
+			}
+		}
 		cx.class("judged");
 		let b = split(&case.base);
 		let r = split(&case.reference);
@@ -258,6 +287,27 @@ impl Prop for C06 {
 	}
 
 	fn enumerate(_tier: Tier, shard: usize, nshards: usize, f: &mut dyn FnMut(Case, bool) -> bool) -> Vec<&'static str> {
+		// scheme, authority and first-segment LENGTHS: every length 0..=600 and the usual limits up to 70 000
+		for (i, n) in gen::sweep_lengths(600, 70_000).into_iter().enumerate() {
+			if i % nshards != shard {
+				continue;
+			}
+			let x = "x".repeat(n);
+			for (k, (base, reference)) in [
+				(format!("s{x}://h//b/c"), "g".to_string()),
+				(format!("s{x}://h/a/b"), "/a/..//b".to_string()),
+				(format!("s{x}:/a/b"), "..//c".to_string()),
+				("s://h/a/b".to_string(), format!("t{x}://g//b/../c")),
+				(format!("s://{x}@h{x}:1//b/c"), "./g/..".to_string()),
+				("s:/a/b".to_string(), format!("{x}/../..//c:d")),
+				(format!("s:{x}/b"), format!("./_{x}:c/../..")),
+			].into_iter().enumerate() {
+				let fam = if (i + k) % 2 == 0 { Fam::Uri } else { Fam::Iri };
+				if !f(Case { fam, base, reference }, true) {
+					return vec![];
+				}
+			}
+		}
 		// bases of every shape x every reference path of <= 3 segments over {a, ., .., ''} in every branch
 		let mut bases: Vec<String> = vec![];
 		for au in ["", "//h", "//"] {
